@@ -119,11 +119,16 @@ class Ctx:
 
 
 def load_known():
-    try:
-        with open(KNOWN) as f:
-            return json.load(f).get('findings', [])
-    except FileNotFoundError:
-        return []
+    """known_findings.json plus fragments known_findings.d/*.json (same format)."""
+    import glob
+    out = []
+    for path in [KNOWN] + sorted(glob.glob(os.path.join(VERIF, 'known_findings.d', '*.json'))):
+        try:
+            with open(path) as f:
+                out += json.load(f).get('findings', [])
+        except FileNotFoundError:
+            pass
+    return out
 
 
 def match_known(prop, v, known):
@@ -202,7 +207,11 @@ def run_property(prop, tier, seed, replay=None):
             if replay:
                 with open(replay) as f:
                     data = json.load(f)
-                mod.replay(ctx, data)
+                if hasattr(mod, 'replay'):
+                    mod.replay(ctx, data)
+                else:
+                    ctx.notes.append('replay: property module has no single-case replay; full run repeated with the same seed')
+                    mod.run(ctx)
             else:
                 mod.run(ctx)
         except ModelError as e:
